@@ -22,6 +22,7 @@ EMPTYMODE = False
 # every third history: a received flowspec / VPNv4 UPDATE also carries, in its classic Withdrawn Routes field, an IPv4 prefix
 # that was never announced (one UPDATE for two address families; for the IPv4 table that withdrawal changes nothing)
 MIXED = False
+XCOMM = False        # every fifth history: REST announcements carry extended communities (see rest_body)
 
 
 def MIXWD():
@@ -91,6 +92,10 @@ def peer_update(f, wd, nl, a):
 def rest_body(f, wd, nl, a):
     if f == 'ipv4':
         attr = {'1': 0, '2': [], '3': ('10.0.0.1' if not NHMODE else {1: '10.0.0.1', 2: '10.0.0.4'}[a]), '4': med_of(a)} if nl else {}
+        if nl and XCOMM:
+            # extended communities in forms that leave something to fill in (a traffic-action with one of its two flags named,
+            # a comma list): what the agent remembers for the route is what the operator sent, however often it is sent
+            attr['16'] = ['traffic-action:s:1', 'route-target:65001:%d' % a] if a == 1 else ['traffic-action:t:1', 'route-target:65001:1,65001:2']
         return {'attr': attr, 'nlri': [P[k][2] for k in nl], 'withdraw': [P[k][2] for k in wd]}
     if f == 'flowspec':
         at = {}
@@ -184,7 +189,8 @@ class RibRun(object):
 
 
 def replay_walk(g, walk, tid):
-    global NHMODE, NESTED, EMPTYMODE, MIXED
+    global NHMODE, NESTED, EMPTYMODE, MIXED, XCOMM
+    XCOMM = (tid % 5 == 3)
     MIXED = (tid % 3 == 1)
     NHMODE = bool(tid % 2)
     NESTED = bool((tid // 2) % 2)
